@@ -39,6 +39,7 @@ def run(ctx, chk):
     r4(ctx, chk)
     r5(ctx, chk)
     local_spelling_rule(ctx, chk, "C02.R6")
+    settings_forwarding_rule(ctx, chk, "C02.R7")
 
 
 def local_spelling_rule(ctx, chk, rule):
@@ -73,6 +74,98 @@ def local_spelling_rule(ctx, chk, rule):
                    key={"function": f.key, "construct": "local test " + " ".join(ast.unparse(c).split())[:50]},
                    file=f.file, function=f.qual, line=c.lineno, text=" ".join(ast.unparse(c).split()))
     chk.floor(rule, n, 7, "tests whether TIMEZONE means the local zone")
+
+
+def settings_forwarding_rule(ctx, chk, rule):
+    """Most internal functions declare `settings=None` and then read `settings.<KEY>` (directly, or in a callee they forward it to) without
+    a None test; only the @apply_settings entry points replace a missing value by the defaults.  So an internal call that leaves the
+    argument out (or passes None) is a latent AttributeError - and, where the read sits behind a lazily filled per-locale cache
+    (`_get_splitters`, `_get_wordchars`, `_get_dictionary`), one that shows only when that call happens to be the first to touch the locale.
+    Every call site of a function that may dereference its settings must hand it a settings value."""
+    from ..core.ctx import conjuncts, enclosing_tests
+    ix, cg = ctx.ix, ctx.cg
+
+    def sparam(f):
+        return "settings" in f.params() and not isinstance(f.node, ast.Lambda)
+
+    def filled_by_decorator(f):
+        return any(d.split(".")[-1] == "apply_settings" for d in f.decorators())
+
+    def arg_for(call, callee):
+        ps = callee.params()
+        idx = ps.index("settings") - (1 if callee.is_method() and callee.kind() != "static" else 0)
+        for k in call.keywords:
+            if k.arg == "settings":
+                return k.value
+            if k.arg is None:
+                return k.value            # **kwargs: supplied by the caller's mapping
+        if 0 <= idx < len(call.args) and not any(isinstance(a, ast.Starred) for a in call.args[:idx + 1]):
+            return call.args[idx]
+        if any(isinstance(a, ast.Starred) for a in call.args):
+            return call.args[0]
+        return None
+
+    def guarded(f, node):
+        """is the read under a test that settings is set?"""
+        for t, pol in enclosing_tests(f.node, node):
+            for a, p_ in conjuncts(t, pol):
+                txt = ast.unparse(a)
+                if (p_ and txt in ("settings", "settings is not None")) or (not p_ and txt in ("settings is None", "not settings")):
+                    return True
+        return False
+
+    funcs = [f for f in ix.funcs.values() if f.module.rel.startswith("dateparser/") and not f.module.rel.startswith("dateparser/data/") and sparam(f)]
+    deref = {}
+    for f in funcs:
+        for n in iter_own_nodes(f.node):
+            if isinstance(n, ast.Attribute) and isinstance(n.value, ast.Name) and n.value.id == "settings" and isinstance(n.ctx, ast.Load) \
+                    and not guarded(f, n):
+                # rebinding `settings = settings or default` before the read would make this safe; none exists, keep it simple and check
+                rebound = any(isinstance(x, ast.Assign) and any(isinstance(t, ast.Name) and t.id == "settings" for t in x.targets)
+                              for x in iter_own_nodes(f.node))
+                if not rebound:
+                    deref[f.key] = "reads settings.%s at line %d" % (n.attr, n.lineno)
+                    break
+    changed = True
+    while changed:
+        changed = False
+        for f in funcs:
+            if f.key in deref:
+                continue
+            for s_ in cg.sites.get(f.key, ()):
+                if not isinstance(s_.node, ast.Call):
+                    continue
+                for c in s_.callees:
+                    if c.key in deref and sparam(c) and not filled_by_decorator(c):
+                        a = arg_for(s_.node, c)
+                        if isinstance(a, ast.Name) and a.id == "settings" and not guarded(f, s_.node):
+                            deref[f.key] = "forwards it to %s (line %d), which %s" % (c.qual, s_.node.lineno, deref[c.key].split(",")[0])
+                            changed = True
+                            break
+                if f.key in deref:
+                    break
+    chk.floor(rule + ".readers", len(deref), 30, "functions that read their settings parameter without a None test")
+    n = 0
+    for fk in sorted(cg.sites):
+        f = ix.funcs[fk]
+        if not f.module.rel.startswith("dateparser/") or f.module.rel.startswith("dateparser/data/"):
+            continue
+        for s_ in cg.sites[fk]:
+            if not isinstance(s_.node, ast.Call):
+                continue
+            for c in s_.callees:
+                if c.key not in deref or filled_by_decorator(c):
+                    continue
+                n += 1
+                a = arg_for(s_.node, c)
+                ok = a is not None and not (isinstance(a, ast.Constant) and a.value is None)
+                chk.ob(rule, "%s line %d: %s receives a settings value" % (f.qual, s_.node.lineno, c.qual), ok,
+                       "`%s` leaves settings %s, but %s %s: AttributeError on None%s" % (
+                           " ".join(ast.unparse(s_.node).split())[:70], "out" if a is None else "None", c.qual, deref[c.key],
+                           " - only on the call that first fills the per-locale cache, i.e. depending on what was parsed before" if "_get_" in deref[c.key] or "_set_" in deref[c.key] or "_get_" in c.qual else ""),
+                       key={"function": f.key, "construct": "call %s without settings" % c.qual}, file=f.file, function=f.qual, line=s_.node.lineno,
+                       text=" ".join(ast.unparse(s_.node).split())[:100])
+    chk.floor(rule, n, 60, "call sites of functions that dereference their settings")
 
 
 def r5(ctx, chk):
